@@ -127,7 +127,7 @@ def sync_op(w: World, op: dict) -> tuple:
             if k == "render":
                 d, ctl = op_data(op, "d")
                 ident = (t.name, str(t.path), t.full_name())
-                return ("ok", t.render(**d), ident)
+                return ("ok", common.norm(t.render(**d)), ident)
             if k == "analyze":
                 return ("ok", canon_analysis(t.analyze(include_partials=op.get("partials", True))))
             out = {}
@@ -156,7 +156,7 @@ async def async_op(w: World, op: dict) -> tuple:
         if k == "render":
             d, ctl = op_data(op, "d")
             ident = (t.name, str(t.path), t.full_name())
-            return ("ok", await t.render_async(**d), ident)
+            return ("ok", common.norm(await t.render_async(**d)), ident)
         if k == "analyze":
             return ("ok", canon_analysis(await t.analyze_async(include_partials=op.get("partials", True))))
         out = {}
@@ -323,6 +323,9 @@ def gen_plan(seed: int, tier: str) -> dict:
             src, parts, data = gprog.generate(rng, shopify=shopify, max_depth=rng.choice([2, 3, 3]))
             partials.update(parts)
             progs.append({"src": src, "data": data})
+    # sentinel partials whose output shows the caller's globals and data (contention probes)
+    partials.setdefault("gvp", "[gvp {{ gv }}|{{ user.name }}|{{ tenant }}]")
+    partials.setdefault("dir/gvq.html", "[gvq {{ gv }}|{{ user.name }}{% include 'gvp' %}]")
     if rng.random() < 0.3:
         for p in progs:
             p["globals"] = {"gv": "G", "user": {"name": "from-globals", "tags": ["g"]}}
@@ -332,12 +335,19 @@ def gen_plan(seed: int, tier: str) -> dict:
     k = rng.choice([1, 2, 2, 3, 4])
     ops = []
     names = list(partials)
+    contention = rng.random() < 0.2  # several tasks load the SAME name with different globals
+    cname = rng.choice(["gvp", "dir/gvq.html"])
     pkg_names = ["pk_one", "pk_child", "snippets/pk_card", "snippets/pk_line.html", "pk_bad", "pk_none"]
     for _ in range(k):
         pi = rng.randrange(len(progs))
-        kind = rng.choices(["render", "analyze", "helpers"], [8, 1.5, 0.7])[0]
+        kind = rng.choices(["render", "analyze", "helpers"], [7, 2, 1])[0]
         op = {"kind": kind, "prog": pi}
-        if loader == "pkg" and rng.random() < 0.7:
+        if contention and loader != "pkg":
+            op = {"kind": "render", "name": cname, "globals": {"gv": f"G{len(ops)}"}}
+            kind = "render"
+        if "name" in op:
+            pass
+        elif loader == "pkg" and rng.random() < 0.7:
             op["name"] = rng.choice(pkg_names)
             op.pop("prog")
         elif names and rng.random() < 0.3:
